@@ -511,3 +511,10 @@ Definition stream_handle (o : opts) (s : stream) (inp : sinput) : res :=
       | Some k => let '(s1, c1) := resume o k inp (upd_pc None s) in drain o s1 (queue s1) c1
       end
   end.
+
+(* ghost: both sides of the flow are finished -- the client side delivered its end of message or protocol error
+   (or the stream is errored), and if the request went upstream the server side delivered its end / error (or the
+   flow was aborted towards the server, or the stream gave up on the server side itself) *)
+Definition closed_s (s : stream) : bool :=
+  (req_fin s || sst_eqb (cs s) SErrored || sst_eqb (ss s) SErrored)
+  && (negb (upstream s) || resp_fin s || aborted s || sst_eqb (ss s) SErrored).
